@@ -21,7 +21,7 @@ from .progs import (  # noqa: F401
 
 KINDS = ["while", "dowhile", "for", "forin", "forof", "switch", "lblock"]
 EXITS = ["fall", "break", "continue", "breakL", "continueL", "return", "throw"]
-ENCL = ["none", "if", "while", "dowhile", "for", "forin", "forof", "switch", "try", "trycatch", "catch", "finally", "finallyx", "lblock"]
+ENCL = ["none", "if", "while", "dowhile", "for", "forin", "forof", "switch", "try", "trycatch", "catch", "finally", "finallyx", "lblock", "bblocks"]
 CTXS = ["stmt", "plus-left", "plus-right", "arr", "obj", "arg", "arg-after", "cond", "map"]
 LOOPS = ("while", "dowhile", "for", "forin", "forof")
 
@@ -140,6 +140,9 @@ def _wrap_encl(E, B, llabel, sfx="", lname="L0"):
         return [L(try_([log(et, num(0)), throw(s_("fx" + sfx))], None, [log(ef, num(0))] + B + [log(eb, num(0))]))]
     if E == "lblock":
         return [L(block(log(et, num(0)), *B, log(eb, num(0))))]
+    if E == "bblocks":
+        # bare sibling blocks inside one block: { {..} {B} {..} }
+        return [L(block(block(log(et, num(0))), block(*B), block(log(eb, num(0)), block(), block(log(ef, num(1))))))]
     raise KeyError(E)
 
 
@@ -678,6 +681,20 @@ def completion_cases():
         "assign-last": [var("x"), expr(assign(id_("x"), num(4)))],
         "nested-block-if": [block(block(if_(T, block(expr(s_("deep"))))))],
         "throw-in-loop": [while_(T, block(expr(num(1)), throw(s_("out"))))],
+        # the values of a loop's init / test / update expressions and of its target never become the completion value
+        "for-exprinit-empty-body": [var("i"), expr(num(5)), for_(assign(i, num(7)), bin_("<", i, num(9)), upd("++", i), EMPTY)],
+        "for-exprinit-zero-iter": [var("i"), expr(num(5)), for_(assign(i, num(7)), F, upd("++", i), EMPTY)],
+        "for-exprinit-novalue-body": [var("i"), expr(num(5)), for_(assign(i, num(7)), bin_("<", i, num(9)), upd("++", i), block(var(("w", num(1)))))],
+        "for-exprinit-body-value": [var("i"), for_(assign(i, num(0)), bin_("<", i, num(2)), upd("++", i), expr(bin_("+", i, num(10))))],
+        "for-seq-init": [var("i"), expr(num(5)), for_(seq(assign(i, num(1)), num(99)), bin_("<", i, num(2)), upd("++", i), EMPTY)],
+        "for-update-assign": [var(("i", num(0))), expr(num(5)), for_(None, bin_("<", i, num(2)), assign(i, bin_("+", i, num(1))), EMPTY)],
+        "for-exprinit-first": [var("i"), for_(assign(i, num(7)), bin_("<", i, num(8)), upd("++", i), EMPTY)],
+        "while-test-value": [var(("i", num(0))), expr(num(5)), while_(bin_("<", upd("++", i, True), num(2)), EMPTY)],
+        "forin-target-id": [var("k"), expr(num(5)), forin(id_("k"), obj(init("a", num(1))), EMPTY)],
+        "forof-target-id": [var("k"), expr(num(5)), forof(id_("k"), arr(num(4), num(6)), EMPTY)],
+        "forof-target-id-value": [var("k"), forof(id_("k"), arr(num(4), num(6)), expr(id_("k")))],
+        "sibling-blocks": [block(block(expr(num(1))), block(expr(num(2))), block())],
+        "sibling-blocks-in-loop": [var(("i", num(0))), while_(bin_("<", i, num(2)), block(block(expr(upd("++", i))), block(expr(bin_("+", i, num(100))))))],
     }
     # a value produced in an *earlier* iteration / another branch must not survive a later execution that
     # produces none (and vice versa): loop kind x inner producer x which iteration yields
